@@ -15,7 +15,7 @@ CpOps == {"SignCp", "ValidateRevocation", "Restart"}
 \* SignMutualClose needs both sides: it is part of the "all" alphabet only
 Reqs == IF Side = "handler" THEN HandlerRequests(N, {"A", "B"}, TT) ELSE
         {r \in Requests(N, HC, CC, TT) :
-           /\ (r.op = "ValidateHolder" /\ r.sig = "badhtlc" => r.c = "H")
+           /\ (r.op = "ValidateHolder" /\ r.sig \in {"badhtlc", "shorthtlc"} => r.c = "H")
            /\ (Side = "holder" => r.op \in HolderOps)
            /\ (Side = "cp" => r.op \in CpOps)}
 
